@@ -108,11 +108,18 @@ Lemma spec_int_range z v : spec_int z = Ok v -> exists z', v = VInt z' /\ spec_i
 Proof. unfold spec_int. destruct (spec_in_range z) eqn:E; [|discriminate]. intro H. inversion H. eauto. Qed.
 
 Definition spec_val_ok (v : value) : Prop :=
-  match v with VInt z => spec_in_range z = true | VBool _ | VStr _ => True | _ => False end.
+  match v with
+  | VInt z => spec_in_range z = true
+  | VBool _ | VStr _ => True
+  | VList _ xs => forallb spec_simple xs = true     (* a list variable: only ever the right operand of in / not in *)
+  | _ => False
+  end.
 
 Lemma spec_binop_ok o a b v : spec_binop o a b = Ok v -> spec_val_ok v.
 Proof.
   destruct o; cbn [spec_binop]; intro H;
+    try (match type of H with context [spec_member] =>
+           destruct b; try discriminate; destruct (spec_member _ _); inversion H; exact I end);
     try (destruct (spec_equal a b); inversion H; exact I);
     try (destruct a, b; try discriminate; cbn in H;
          repeat match type of H with
@@ -135,6 +142,7 @@ Proof.
     + inversion H. exact I.
     + apply spec_int_range in H. destruct H as [z' [-> Hz]]. exact Hz.
     + inversion H. exact I.
+    + destruct (forallb spec_simple xs) eqn:E; [|discriminate]. inversion H. exact E.
   - destruct (spec_eval env e) as [w| | |]; try discriminate. specialize (IHe w eq_refl).
     destruct o.
     + destruct (spec_truthy w); inversion H. exact I.
@@ -200,3 +208,34 @@ Lemma C08_concat_proof : forall (env : spec_env) (a b : expr) (va vb : value) (s
   spec_eval env a = Ok va -> spec_eval env b = Ok vb -> spec_show va = Some sa -> spec_show vb = Some sb ->
   spec_eval env (EBin BConcat a b) = Ok (VStr (sa ++ sb)).
 Proof. exact spec_concat. Qed.
+
+(* ---- membership: in / not in against a list variable ---- *)
+Lemma spec_member_true a xs r : spec_member a xs = Some r ->
+  (r = true <-> exists x, In x xs /\ spec_equal a x = Some true).
+Proof.
+  revert r. induction xs as [|x xs IH]; intros r H; cbn [spec_member] in H.
+  - inversion H. split; [discriminate|]. intros [y [[] _]].
+  - destruct (spec_equal a x) as [e|] eqn:E; [|discriminate].
+    destruct (spec_member a xs) as [m|] eqn:M; [|discriminate]. inversion H. subst r. clear H.
+    specialize (IH m eq_refl). split.
+    + intro Hor. destruct e.
+      * exists x. split; [left; reflexivity|exact E].
+      * cbn in Hor. apply IH in Hor. destruct Hor as [y [Hy Hey]]. exists y. split; [right; exact Hy|exact Hey].
+    + intros [y [[->|Hy] Hey]].
+      * rewrite E in Hey. inversion Hey. reflexivity.
+      * assert (m = true) as -> by (apply IH; exists y; split; assumption). apply Bool.orb_true_r.
+Qed.
+
+Lemma C08_membership_proof : forall (env : spec_env) (a : expr) (x : bytes) (va : value) (t : ltag) (xs : list value) (r : bool),
+  spec_eval env a = Ok va -> spec_eval env (EVar x) = Ok (VList t xs) -> spec_member va xs = Some r ->
+  spec_eval env (EBin BIn a (EVar x)) = Ok (VBool r) /\
+  spec_eval env (EBin BNotIn a (EVar x)) = Ok (VBool (negb r)) /\
+  (r = true <-> exists y, In y xs /\ spec_equal va y = Some true).
+Proof.
+  intros env a x va t xs r Ha Hx Hm. split; [|split].
+  - rewrite (spec_eval_bin env BIn a (EVar x) va (VList t xs)) by (congruence || assumption).
+    cbn [spec_binop]. rewrite Hm. reflexivity.
+  - rewrite (spec_eval_bin env BNotIn a (EVar x) va (VList t xs)) by (congruence || assumption).
+    cbn [spec_binop]. rewrite Hm. reflexivity.
+  - apply spec_member_true. exact Hm.
+Qed.
